@@ -51,4 +51,18 @@ def tokLess (name : Nat → Nat) (isList : Nat → Bool) (a b : TokKey) : Bool :
     | .lit _ x, .lit _ y => Nat.blt x y
     | _, _ => false
 
+/-- Type aliases: `ParamTypesEqual` (through `ddptypes.Equal`), `IsList` and the name compared by
+`tokenLess` all look at a placeholder's type only through `ddptypes.GetUnderlying`; `under` is that
+map on type identities (the identity on types that are not aliases). -/
+def TokKey.resolve (under : Nat → Nat) : TokKey → TokKey
+  | .param r i => .param r (under i)
+  | k => k
+
+/-- `tokenEqual` on tokens whose placeholder types may be aliases -/
+def tokEqU (under : Nat → Nat) (a b : TokKey) : Bool := tokEq (a.resolve under) (b.resolve under)
+
+/-- `tokenLess` on tokens whose placeholder types may be aliases -/
+def tokLessU (under : Nat → Nat) (name : Nat → Nat) (isList : Nat → Bool) (a b : TokKey) : Bool :=
+  tokLess name isList (a.resolve under) (b.resolve under)
+
 end DDP.TokenKey
